@@ -624,6 +624,9 @@ def slot_use_after_release(P, R, rule='C08.UAF.2'):
                     freers[f.key] = sx(root_var(a))
                 elif is_var(a) and a['name'] in loc:
                     freers[f.key] = loc[a['name']]
+        # ... or it is handed the address of the slot and frees what the slot holds (`srv = *slot; ... xfree(srv)`)
+        if f.key not in freers and any(t.fn is f and (t.ev.get('lhs') or {}).get('k') == 'un' for t in core.slot_release_sites(P)) and any(s.ev.get('callee') in ('xfree', 'free') for s in f.calls()):
+            freers[f.key] = 'iauth_xquery_services'
     n = 0
     for f in P.fns.values():
         if not f.unit.startswith('modules/'):
